@@ -124,26 +124,34 @@ def run(ck, facts):
         ck.bad("R1", "gen_method_info/params-loop", "loop over method.params not found", C.loc(g))
     else:
         cond_if = None
+
+        def names(p):
+            if not isinstance(p, dict):
+                return []
+            out = [p.get("v")] if p.get("k") == "variant" else []
+            for s in p.get("sub", []) or [] if isinstance(p.get("sub"), list) else []:
+                out += names(s)
+            for s in p.get("alts", []) or []:
+                out += names(s)
+            if p.get("k") == "ref":
+                out += names(p["sub"])
+            return out
         for n in C.walk(loop["body"]):
+            # the branch taken for Slice::Str(_, Utf8): `if matches!(ty, P) {..}`, `if let P = ty {..}` or the arm `P => {..}` of a match on the type
             if n.get("k") == "if":
-                # condition selects Slice::Str(_, Utf8)
                 vs = []
                 for x in C.walk(n["c"]):
                     if x.get("k") == "match":
                         for a in x["arms"]:
-                            p = a["pat"]
-                            def names(p):
-                                out = [p.get("v")] if p.get("k") == "variant" else []
-                                for s in p.get("sub", []) or []:
-                                    out += names(s)
-                                for s in p.get("alts", []) or []:
-                                    out += names(s)
-                                if p.get("k") == "ref":
-                                    out += names(p["sub"])
-                                return out
-                            vs += names(p)
+                            vs += names(a["pat"])
+                    elif x.get("k") == "let":
+                        vs += names(x.get("pat"))
                 if {"Slice", "Str", "Utf8"} <= set(vs):
                     cond_if = n
+            elif n.get("k") == "match" and not n.get("synthetic"):
+                for a in n["arms"]:
+                    if {"Slice", "Str", "Utf8"} <= set(names(a["pat"])) and any(x.get("k") == "mcall" and x.get("m") == "push" for x in C.walk(a["b"])):
+                        cond_if = {"k": "if", "c": n["s"], "t": a["b"], "ln": n.get("ln")}
         if not cond_if:
             ck.bad("R1", "gen_method_info/utf8-condition", "no branch on Type::Slice(Slice::Str(_, StringEncoding::Utf8)) inside the parameter loop: &str parameters are not validated", C.loc(g))
         else:
@@ -155,7 +163,7 @@ def run(ck, facts):
                 lits = C.str_lits(p["a"][0])
                 lit = " ".join(lits)
                 lst = (order.list_name(p["recv"]) or [None])[0]
-                has_check = re.search(r"if\s*\(\s*!\s*diplomat::capi::diplomat_is_str\(\{param\}\.data\(\),\s*\{param\}\.size\(\)\)\s*\)", lit) is not None
+                has_check = re.search(r"if\s*\(\s*!\s*diplomat::capi::diplomat_is_str\(\{(\w+)\}\.data\(\),\s*\{\1\}\.size\(\)\)\s*\)", lit) is not None
                 has_ret = "return diplomat::Err<diplomat::Utf8Error>()" in lit
                 okp = has_check and has_ret
                 detail = "pushes `%s` onto %s" % (lit[:90].replace("\n", " "), lst)
@@ -164,6 +172,41 @@ def run(ck, facts):
             # gen_method_info takes apart
             slot_ok = False
             lst_local, _, lst_field = (lst or "").partition(".")
+            push_recv = C.strip(pushes[-1]["recv"]) if pushes else {}
+            root_ = push_recv
+            while isinstance(root_, dict) and root_.get("k") in ("field", "addr", "un"):
+                root_ = C.strip(root_.get("e"))
+            L_id = root_.get("id") if isinstance(root_, dict) and root_.get("k") == "local" else None
+            # how the helper hands the list (or the record holding it) back: whole, as field F of a returned record, or as component i of a returned tuple
+            ret_slot = None
+            if g is not g0 and L_id is not None:
+                tail = C.strip(C.fn_body(g).get("e") or {})
+                if tail.get("k") == "local" and tail.get("id") == L_id:
+                    ret_slot = ("whole", lst_field or None)
+                elif tail.get("k") == "struct":
+                    for fl_ in tail.get("fields") or []:
+                        e_ = C.strip(fl_["e"])
+                        if e_.get("k") == "local" and e_.get("id") == L_id and not lst_field:
+                            ret_slot = ("field", fl_["n"])
+                elif tail.get("k") == "tup":
+                    for ix, a_ in enumerate(tail.get("a") or []):
+                        e_ = C.strip(a_)
+                        if e_.get("k") == "local" and e_.get("id") == L_id and not lst_field:
+                            ret_slot = ("index", ix)
+            recv_ids, recv_whole = set(), set()
+            if ret_slot:
+                for ls in C.walk(C.fn_body(g0)):
+                    if ls.get("k") != "letst" or ls.get("init") is None or C.norm_path(g["path"]) not in {C.norm_path(C.callee(c_) or "") for c_ in C.calls_in(ls["init"])}:
+                        continue
+                    pat = ls["pat"]
+                    if pat.get("k") == "bind":
+                        recv_whole.add(pat.get("id"))
+                    elif ret_slot[0] == "field":
+                        for fp in pat.get("fields") or []:
+                            if fp.get("n") == ret_slot[1]:
+                                recv_ids |= set(C.pat_bind_ids(fp.get("p") or fp))
+                    elif ret_slot[0] == "index" and pat.get("k") == "tuple" and ret_slot[1] < len(pat.get("sub") or []):
+                        recv_ids |= set(C.pat_bind_ids(pat["sub"][ret_slot[1]]))
             for b_ in all_bodies:
                 for n in C.walk(b_):
                     if n.get("k") == "struct" and (n.get("adt") or "").endswith("MethodInfo"):
@@ -172,20 +215,13 @@ def run(ck, facts):
                                 continue
                             e = C.strip(fl["e"])
                             if g is g0 and not lst_field:
-                                slot_ok = e.get("k") == "local" and e.get("n") == lst
+                                slot_ok = e.get("k") == "local" and e.get("id") == L_id
                             elif e.get("k") == "local":
-                                # bound by destructuring the helper's result: `let Rec { <field>: x, .. } = self.helper(..)` / `let r = self.helper(..); r.<field>`
-                                d = dict(flow.defs_of(g0)).get(e.get("id"))
-                                src_calls = {C.norm_path(C.callee(c_) or "") for c_ in C.calls_in(d[1])} if d and d[1] is not None else set()
-                                via_helper = C.norm_path(g["path"]) in src_calls
-                                names_field = d is not None and d[0] == "destructure" and any(
-                                    (fp.get("n") == lst_field) and e.get("id") in C.pat_bind_ids(fp.get("p") or fp)
-                                    for ls in C.walk(C.fn_body(g0)) if ls.get("k") == "letst" and e.get("id") in C.pat_bind_ids(ls["pat"])
-                                    for fp in (ls["pat"].get("fields") or ls["pat"].get("sub") or []))
-                                returned = C.strip(C.fn_body(g).get("e") or {})
-                                slot_ok = via_helper and names_field and returned.get("k") == "local" and returned.get("n") == lst_local
+                                slot_ok = e.get("id") in recv_ids or (ret_slot is not None and ret_slot[0] == "whole" and not ret_slot[1] and e.get("id") in recv_whole)
                             elif e.get("k") == "field":
-                                slot_ok = e.get("n") == lst_field
+                                b0 = C.strip(e["e"])
+                                want_f = ret_slot[1] if ret_slot and ret_slot[0] in ("field", "whole") and ret_slot[1] else lst_field
+                                slot_ok = e.get("n") == want_f and (g is g0 or (b0.get("k") == "local" and b0.get("id") in recv_whole))
             joins = [x for b_ in all_bodies for x in C.walk(b_) if x.get("k") == "mcall" and x.get("m") == "join" and
                      (lst in order.list_name(x["recv"]) or any(y.get("k") == "local" and y.get("n") == lst for y in C.walk(x["recv"])))]
             ck.expect(slot_ok and not joins, "R1", "gen_method_info/validations-reach-template", "", "the list the validations are pushed onto (%s) is not what MethodInfo.param_validations receives (or is joined into one condition)" % lst, C.loc(g))
@@ -195,7 +231,7 @@ def run(ck, facts):
             i_conv = next((i for i, s in enumerate(items) if any(x.get("k") == "mcall" and x.get("m") == "gen_cpp_to_c_for_type" for x in C.walk(s))), None)
             ck.expect(i_val is not None and i_conv is not None, "R1", "gen_method_info/same-iteration", "", "validation and conversion are not produced by the same loop iteration", C.loc(g))
             # the early return type is accounted for: returns_utf8_err wraps the return type
-            wraps = any("diplomat::result<{return_ty}, diplomat::Utf8Error>" in s for b_ in all_bodies for s in C.str_lits(b_))
+            wraps = any(re.search(r"diplomat::result<\{\w+\}, diplomat::Utf8Error>", s) for b_ in all_bodies for s in C.str_lits(b_))
             ck.expect(wraps, "R1", "gen_method_info/return-type-wrapped", "", "methods with validated parameters no longer return diplomat::result<T, Utf8Error>", C.loc(g))
     # ---------------- R2
     toks = tmpl.load("cpp/method_impl.h.jinja", resolve_includes=False)
@@ -205,7 +241,7 @@ def run(ck, facts):
     ck.expect(i_val >= 0 and i_call is not None and i_val < i_call.start() and re.search(r"⟦\s*validation", fl) is not None, "R2", "method_impl.h/validations-before-call", "", "the C++ method template does not print the validations before calling the native function", "tool/templates/cpp/method_impl.h.jinja")
     # ---------------- R3
     order.method_param_order(ck, "R3", g, "cpp::gen_method_info", unit=tool)
-    okw = any(n.get("k") == "if" and C.strip(n["c"]).get("k") == "mcall" and C.strip(n["c"]).get("m") == "is_write" and any(x.get("k") == "mcall" and x.get("m") == "push" and "&write" in C.str_lits(x["a"][0]) for x in C.walk(n["t"])) for n in C.walk(body))
+    okw = any(n.get("k") == "if" and C.strip(n["c"]).get("k") == "mcall" and C.strip(n["c"]).get("m") == "is_write" and any(x.get("k") == "mcall" and x.get("m") == "push" and "&write" in C.str_lits(x["a"][0]) for x in C.walk(n["t"])) for b_ in all_bodies for n in C.walk(b_))
     ck.expect(okw, "R3", "cpp::gen_method_info/write-last", "", "`&write` is not appended under method.output.is_write()", C.loc(g))
     fl_t = fl
     ck.expect(re.search(r"for \w+ in \w+\.cpp_to_c_params", fl_t) is not None and "reverse" not in fl_t and "|sort" not in fl_t, "R3", "method_impl.h/param-order", "", "the template does not print cpp_to_c_params in order", "tool/templates/cpp/method_impl.h.jinja")
